@@ -33,6 +33,10 @@ fn sema_sig(text: &str) -> Vec<(Option<String>, String, Vec<(usize, usize)>)> {
 
 /// returns Ok(Some(formatted)) when checked
 pub fn check_any(text: &str, ev: &mut Evidence, origin: &str) -> Result<Option<String>, Violation> {
+    if textgen::max_nesting(text) > super::c12::DEEP {
+        ev.exclude("deeply nested text (C12 evaluates those in a child process)");
+        return Ok(None);
+    }
     let _case = crate::prop::case_guard("C17", origin, text);
     ev.eval();
     if ev.samples.len() < 3 && ev.evaluations % 503 == 1 {
@@ -60,6 +64,10 @@ pub fn check_any(text: &str, ev: &mut Evidence, origin: &str) -> Result<Option<S
 }
 
 pub fn check_valid(text: &str, ev: &mut Evidence, origin: &str) -> Result<Option<String>, Violation> {
+    if textgen::max_nesting(text) > super::c12::DEEP {
+        ev.exclude("deeply nested text (C12 evaluates those in a child process)");
+        return Ok(None);
+    }
     let _case = crate::prop::case_guard("C17", origin, text);
     let Some(out) = check_any(text, ev, origin)? else { return Ok(None) };
     if lw::syntax_diag_count(text) > 0 {
@@ -90,6 +98,10 @@ pub fn check_valid(text: &str, ev: &mut Evidence, origin: &str) -> Result<Option
 const RULE18: &str = "syntactically valid grammar files: generated grammars (all profiles) in random layouts (arbitrary line breaks and indentation; line, doc and block comments between declarations, after any token on the same line, on own lines inside rule bodies, inside brackets) and the repository files. Oracle: f = format(x): format(f) == f; sampled through the real binary: `llw -f file` then `llw -f -c file` exits 0, and on the original `llw -f -c` exits 0 exactly when format(x) == x. half of the layouts (called plain) place at most one comment per gap and none at the start of the text or directly after `:` `(` `[` (the placements of known finding K9), and any non-idempotence on such a text is reported under its own signature. non-trivial = text with >= 1 comment and >= 1 line break inside a rule body; distinct = the text";
 
 pub fn check_idem(text: &str, ev: &mut Evidence, origin: &str) -> Result<(), Violation> {
+    if textgen::max_nesting(text) > super::c12::DEEP {
+        ev.exclude("deeply nested text (C12 evaluates those in a child process)");
+        return Ok(());
+    }
     let _case = crate::prop::case_guard("C18", origin, text);
     ev.eval();
     if ev.samples.len() < 3 && ev.evaluations % 503 == 1 {
